@@ -75,7 +75,7 @@ OPTION_SETS = [[], ["-E"], ["-fpic"], ["-fcommon"], ["-fno-common"], ["-DX=1", "
 OPTION_PROBES = [["-x", "bogus"], ["-x", "c"], ["-x", "assembler"], ["-x", "none"], ["-xc"],
                  ["-Zfoo"], ["--help"], ["-###"], ["-"], ["-D", ""], ["-D="], ["-D=1"], ["-D1"], ["-DX(=1"], ["-DX("],
                  ["-DX=\""], ["-DX='"], ["-DX=/*"], ["-DX=\\"], ["-D#"], ["-DX=#"], ["-U", ""], ["-U1"], ["-UX Y"],
-                 ["-include", "c13_nonexistent.h"], ["-include", "."], ["-include", "v.c"], ["-I", "x"], ["-I"],
+                 ["-include", "c13_nonexistent.h"], ["-include", "."], ["-include", "v.c"], ["-I", "x"], ["-I."],
                  ["-o", "x"], ["-ox"], ["-MF", "x"], ["-MT", "x"], ["-L", "x"], ["-Lx"], ["-Xlinker", "x"],
                  ["-idirafter", "."], ["-MD"], ["-MMD"], ["-M", "-MP"], ["-M", "-MT", "t"], ["-M", "-MQ", "a b$"],
                  ["-MD", "-MF", "/nonexistent/dir/x.d"], ["-fpic"], ["-fPIC"], ["-static"], ["-shared"], ["-s"],
@@ -259,6 +259,8 @@ def judge_diag(err, data, wd, loose):
     if not m:
         if loose or first.startswith(b"<"):
             return None
+        if _LINEDIR.search(data) and re.match(rb"^[^\n:]+:-\d+: ", err):
+            return None                    # presumed line after #line (C18 judges its value, not C13)
         return ("diag-no-location", norm_msg(first))
     name, line = m.group(1).decode("utf-8", "replace"), int(m.group(2))
     if name.startswith("<"):               # <built-in>, <command line>
